@@ -78,7 +78,8 @@ func (t *schedulerTask) close() {
 		return
 	}
 	t.kill = true
-	if t.total <= 0 || t.trigger < t.total {
+	// the wheel hands out no timer for a task that has no occurrence at all (a cron expression that never matches)
+	if t.timer != nil && (t.total <= 0 || t.trigger < t.total) {
 		t.timer.Stop()
 	}
 }
